@@ -227,12 +227,14 @@ pub(super) fn limit_set(limits: &mut Limits, env: &Env, i: usize, v: usize, if_n
 pub(super) fn limit_announce(limits: &mut Limits, i: usize, v: usize, polling: Option<usize>) {
     for w in limits.writers.iter_mut().filter(|w| w.src == i) {
         if w.tap.borrow().input_ended {
-            w.late = Some(v);
+            w.late.push(v);
         } else if polling == Some(w.consumer) {
-            w.during_poll = Some(v);
+            // (every value announced during the poll: a stage that polls its limit stream again
+            // within the same poll — read-ahead — may have seen any prefix of them)
+            w.during_poll.push(v);
         } else {
             w.announced = Some(v);
-            w.during_poll = None;
+            w.during_poll.clear();
         }
     }
 }
@@ -622,11 +624,15 @@ impl Rest {
             Some(i) => {
                 let w = &self.limits.writers[i];
                 let mut v = vec![w.announced];
-                if w.late.is_some() && w.late != w.announced {
-                    v.push(w.late);
+                for d in &w.late {
+                    if !v.contains(&Some(*d)) {
+                        v.push(Some(*d));
+                    }
                 }
-                if w.during_poll.is_some() && !v.contains(&w.during_poll) {
-                    v.push(w.during_poll);
+                for d in &w.during_poll {
+                    if !v.contains(&Some(*d)) {
+                        v.push(Some(*d));
+                    }
                 }
                 v
             }
@@ -1564,9 +1570,11 @@ impl Rest {
         self.env.borrow_mut().poll_floor = None;
         // what was announced during the poll is from now on the latest limit announced
         for w in self.limits.writers.iter_mut() {
-            if let Some(v) = w.during_poll.take() {
+            let during = std::mem::take(&mut w.during_poll);
+            if let Some(&v) = during.last() {
                 if w.tap.borrow().input_ended {
-                    w.late = Some(v);
+                    // the input ended during that poll: the stage may have seen any of them before
+                    w.late.extend(during.iter().copied());
                 } else {
                     w.announced = Some(v);
                 }
